@@ -31,7 +31,12 @@ def run(prop, tier, cfg):
         # only the requested tests run (test-name filters after `--`)
         cmd = ['cargo', 'test', '--offline', '--release', '--features', 'charsets,multipart-form,json,form', '--lib', '--'] + names + ['--nocapture', '--test-threads', '8']
         try:
-            p = subprocess.run(cmd, cwd=scratch, env=env, capture_output=True, text=True, timeout=cfg.get('timeout', 1500))
+            # one build at a time in the shared target directory (two checks running side by side must not pick up each other's binary)
+            import fcntl
+            os.makedirs(env['CARGO_TARGET_DIR'], exist_ok=True)
+            with open(os.path.join(env['CARGO_TARGET_DIR'], '.vp.lock'), 'w') as lk:
+                fcntl.flock(lk, fcntl.LOCK_EX)
+                p = subprocess.run(cmd, cwd=scratch, env=env, capture_output=True, text=True, timeout=cfg.get('timeout', 1500))
         except subprocess.TimeoutExpired:
             out['undecided'].append('native checks timed out')
             return out
